@@ -119,6 +119,16 @@ func (w *World) funcWrites(fn *ssa.Function) map[string]bool {
 					for _, n := range c.Names {
 						if strings.HasPrefix(n, "heap:") {
 							hn := strings.TrimPrefix(n, "heap:")
+							if strings.HasSuffix(hn, "*") {
+								// wildcard over the registered heaps (all struct fields are registered at start-up)
+								pre := strings.TrimSuffix(hn, "*")
+								for _, known := range w.heapOrder {
+									if strings.HasPrefix(known, pre) {
+										out[known] = true
+									}
+								}
+								continue
+							}
 							if hn == "alloc" {
 								w.allocHeaps(out)
 							} else if _, ok := w.heapSorts[hn]; ok {
@@ -543,7 +553,11 @@ func (ex *Exec) applyContract(fr *Frame, st *State, blk *Block, name string, sig
 			w2[ex.w.ghostHeap("G_mine")] = true
 			writes = w2
 		}
-		ex.havocWrites(st, writes, all, released)
+		if blk.Parsetime {
+			ex.havocLoop(st, writes) // wholesale: only read-only locations are framed
+		} else {
+			ex.havocWrites(st, writes, all, released)
+		}
 		for i, r := range released {
 			// released objects are no longer held / owned
 			hH, mH := ex.w.ghostHeap("G_held"), ex.w.ghostHeap("G_mine")
